@@ -1061,8 +1061,8 @@ def world_strategy(tier: str, layouts: Optional[list[str]] = None, rich: bool = 
                         max_size=2, unique_by=lambda p: p[0]),
         'opaque': st.dictionaries(st.sampled_from(opaque_names), gens.hexbytes(1, 24), max_size=5),
         'lump_ver': st.dictionaries(st.sampled_from(all_names), st.sampled_from([0, 1, 2, 0x7FFFFFFF, -1]), max_size=5),
-        'lzma': st.lists(st.sampled_from(all_names), max_size=3, unique=True),
-        'gl_lzma': st.lists(st.sampled_from(['sprp', 'dprp']), max_size=2, unique=True),
+        'lzma': st.one_of(st.just([]), st.lists(st.sampled_from(all_names), max_size=3, unique=True)),
+        'gl_lzma': st.one_of(st.just([]), st.lists(st.sampled_from(['sprp', 'dprp']), max_size=2, unique=True)),
         'gl_dummy': st.booleans(),
         'gl_pad': st.sampled_from([0, 0, 1, 3]),
     })
